@@ -22,13 +22,14 @@ RULE = (
     "source unchanged; IndexAsScalar(i, q) equals Convert of element i. Curve part: Curve(image, domain), SetImage, "
     "SetDomain and the property setters with Arrays of arbitrary lengths (flat list/tuple/ndarray, FixedArray, and Arrays of pairs): after every call len(image)==len(domain), "
     "equal lengths are accepted, different lengths raise ValueError and leave both attributes identical. "
-    "Non-trivial = a sequence of >= 3 steps containing a rejected attempt followed by another step; key = the sequence."
+    "ChangingIndex / IndexAsScalar called while a project database is current give the result (and, re-expressed in another unit, the numbers) they give while the array's own database is current. Non-trivial = a sequence of >= 3 steps containing a rejected attempt followed by another step; key = the sequence."
 )
 ASSUMPTIONS = ["indices are generated inside 0..dimension-1", "values are finite floats; units of one quantity type incl. affine ones"]
 BUDGET_S = {"quick": 120, "thorough": 1200}
 N = {"quick": 500, "thorough": 6000}
 SHARDS = {"quick": 6, "thorough": 16}
 UNITS = [("m", "length"), ("cm", "length"), ("km", "depth"), ("ft", "depth"), ("s", "time"), ("min", "time"), ("degC", "temperature"), ("K", "temperature"), ("degF", "temperature"), ("kg", "mass"), ("g", "mass")]
+_SKEWED = None
 KINDS = gen.CONTAINER_KINDS
 # FixedArrays also over an integer ndarray (a non-integral amount put at an index is still that amount)
 FA_KINDS = KINDS + ("ndarray_int",)
@@ -248,6 +249,31 @@ class FAMachine:
             r = self.attempt("FixedArray%sndarray2d" % sym, (lambda: _ar(sym, k, a)) if left else (lambda: _ar(sym, a, k)), None, None, [a])
             if r is not None and len(self.pool) < 10 and all(not hasattr(x, "__len__") for x in r.GetValues()):
                 self.add(r)
+        elif kind == "other_db_index":
+            # the array and the amount belong to this database; the call is made while a project database (same symbols,
+            # other factors, fewer units) is current: the same result as while their own database is current
+            _, _, idx, ui, x, use = op
+            if a.GetQuantity().IsDerived() or a.GetQuantityType() not in ("length", "time", "temperature"):
+                return
+            us = {"length": ["m", "cm", "km", "ft", "mi"], "time": ["s", "min", "h", "d"], "temperature": ["K", "degC", "degF"]}[a.GetQuantityType()]
+            vu = us[ui % len(us)]
+            i = idx % d
+            amount = Scalar(x, vu)
+            ref = a.ChangingIndex(i, amount, use)
+            ref_s = a.IndexAsScalar(i, ObtainQuantity(vu, a.GetCategory()))
+            global _SKEWED
+            if _SKEWED is None:
+                _SKEWED = env.skewed_db()
+            self.ctx.ev()
+            with env.pushed(_SKEWED):
+                got = a.ChangingIndex(i, amount, use)
+                got_s = a.IndexAsScalar(i, ref_s.GetQuantity())
+            self.inv(got, d, "ChangingIndex under another current database")
+            # (the result is an object of the operands' database: re-expressed in another unit it gives the same numbers)
+            w = [t for t in us if t != got.GetUnit()][0]
+            if repr(got) != repr(ref) or repr(got_s) != repr(ref_s) or [float(t) for t in got.GetValues(w)] != [float(t) for t in ref.GetValues(w)] or got_s.GetValue(w) != ref_s.GetValue(w):
+                self.fail("changing_index_depends_on_the_current_database", "ChangingIndex(%d, %r, %r) on %r gives %r while its own database is current and %r while a project database is (IndexAsScalar: %r / %r)" % (i, amount, use, a, ref, got, ref_s, got_s))
+            self.ctx.cls("index_ops_under_another_current_database")
         elif kind == "pickle":
             r = self.attempt("pickle", lambda: pickle.loads(pickle.dumps(a, op[2] % (pickle.HIGHEST_PROTOCOL + 1))), True, d, [a])
             if r is not None and not (r == a):
@@ -510,6 +536,7 @@ def fa_ops():
         st.tuples(st.just("changing_index"), i, i, st.sampled_from(["float", "tuple", "scalar"]), gen.moderate_values(1e-2, 1e3), i, st.booleans()),
         st.tuples(st.just("changing_index"), i, i, st.sampled_from(["float", "tuple", "scalar"]), gen.moderate_values(1e-2, 1e3), i, st.booleans()),
         st.tuples(st.just("index_as_scalar"), i, i, i, st.booleans()),
+        st.tuples(st.just("other_db_index"), i, i, i, gen.moderate_values(1e-2, 1e3), st.booleans()),
     )
 
 
